@@ -367,7 +367,12 @@ func (f *File) seekWithoutLocking(offset int64, whence int) (int64, error) {
 
 				// Hand the error to whoever reads from the pipe
 				_ = writer.CloseWithError(err)
+
+				return
 			}
+
+			// Signal the end of the content even if the restore did not write (and thus close) anything
+			_ = writer.Close()
 		}()
 
 		f.readOpReader = reader
@@ -556,7 +561,12 @@ func (f *File) Read(p []byte) (n int, err error) {
 
 				// Hand the error to whoever reads from the pipe
 				_ = writer.CloseWithError(err)
+
+				return
 			}
+
+			// Signal the end of the content even if the restore did not write (and thus close) anything
+			_ = writer.Close()
 		}()
 
 		f.readOpReader = reader
